@@ -29,6 +29,32 @@ def contentOf (d : MvccSt) (s : Nat) : Option (List Ver) :=
 
 def showVers (l : List Ver) : String := itemsStr (l.map fun v => (v.key, v.val))
 
+/-- What a StoreToDisk call does to the instance, whatever happens to the files: one reference of snapshot `s`
+    is released; with `churn=k1,k2,..` keys are deleted through writer 0, a snapshot is cut and released at once
+    (mutation while the backup runs). Returns the new state and the content of `s` (the stored snapshot). -/
+def storeEffects (b : MvccBk) (s : String) (toks : List String) : Option (MvccSt × List Ver) :=
+  if !b.base.configured || b.base.down then none else
+  match s.toNat? with
+  | none => none
+  | some sn =>
+    match contentOf b.base sn with
+    | none => none
+    | some c =>
+      let (d, out) := mvccStep b.base ["close", s]
+      if out != "ok" then none else
+      match argOf toks "churn" with
+      | none => some (d, c)
+      | some ks =>
+        let keys := if ks == "." then some [] else (splitOnChar ks ',').mapM String.toNat?
+        match keys with
+        | none => none
+        | some keys =>
+          let d1 := keys.foldl (fun d k => (mvccStep d ["del", "0", toString k]).1) d
+          let (d2, o2) := mvccStep d1 ["snap"]
+          let sn2 := (natArg (tokens o2) "sn").getD 0
+          let (d3, _) := mvccStep d2 ["close", toString sn2]
+          some (d3, c)
+
 def mvccBkStep (b : MvccBk) (toks : List String) : MvccBk × String :=
   match toks with
   | "cfg" :: rest =>
@@ -37,31 +63,12 @@ def mvccBkStep (b : MvccBk) (toks : List String) : MvccBk × String :=
       ({ b with base := d, delta := argOf rest "delta" == some "1", nwriters := (natArg rest "writers").getD 0 }, out)
     else (b, out)
   | "store" :: s :: _ =>
-    if !b.base.configured || b.base.down then (b, "bad-op") else
-    match s.toNat? with
-    | some sn =>
-      match contentOf b.base sn with
-      | some c =>
-        let (d, out) := mvccStep b.base ["close", s]
-        if out != "ok" then (b, "bad-op") else
-        -- `churn=k1,k2,..`: mutation while the backup runs (deletes through writer 0, a new snapshot that is
-        -- released at once); it does not influence what is stored (theorem C05_roundtrip / C01_content_fixed)
-        match argOf toks "churn" with
-        | none => ({ b with base := d, stored := some c }, "ok")
-        | some ks =>
-          let keys := if ks == "." then some [] else (splitOnChar ks ',').mapM String.toNat?
-          match keys with
-          | none => (b, "bad-op")
-          | some keys =>
-            let d1 := keys.foldl (fun d k => (mvccStep d ["del", "0", toString k]).1) d
-            let (d2, o2) := mvccStep d1 ["snap"]
-            let sn := (natArg (tokens o2) "sn").getD 0
-            let (d3, _) := mvccStep d2 ["close", toString sn]
-            ({ b with base := d3, stored := some c }, "ok")
-      | none => (b, "bad-op")
+    match storeEffects b s toks with
+    | some (d, c) => ({ b with base := d, stored := some c }, "ok")
     | none => (b, "bad-op")
   | ["image"] => (b, "*")
   | ["manifest", _, _] => (b, "*")
+  | ["laststeps"] => (b, "*")
   | "loadimg" :: rest =>
     if !b.base.configured then (b, "bad-op") else (b, loadImgLine b.delta b.base.kv rest)
   | "load" :: _ =>
@@ -76,24 +83,12 @@ def mvccBkStep (b : MvccBk) (toks : List String) : MvccBk × String :=
       let r := Mvcc.step st0 .snap
       ({ b with base := { b.base with st := r.1, iterNames := [], handleNames := [] } }, "ok " ++ showOut r.2)
   | "storeload" :: s :: _ =>
-    if !b.base.configured || b.base.down then (b, "bad-op") else
-    match s.toNat? with
-    | some sn =>
-      match contentOf b.base sn with
-      | some c =>
-        let (d, out) := mvccStep b.base ["close", s]
-        if out == "ok" then ({ b with base := d }, s!"err || ok items={showVers c}") else (b, "bad-op")
-      | none => (b, "bad-op")
+    match storeEffects b s toks with
+    | some (d, c) => ({ b with base := d }, s!"err || ok items={showVers c}")
     | none => (b, "bad-op")
   | "crashload" :: s :: _ =>
-    if !b.base.configured || b.base.down then (b, "bad-op") else
-    match s.toNat? with
-    | some sn =>
-      match contentOf b.base sn with
-      | some c =>
-        let (d, out) := mvccStep b.base ["close", s]
-        if out == "ok" then ({ b with base := d }, s!"none || err || ok items={showVers c}") else (b, "bad-op")
-      | none => (b, "bad-op")
+    match storeEffects b s toks with
+    | some (d, c) => ({ b with base := d }, s!"none || err || ok items={showVers c}")
     | none => (b, "bad-op")
   | _ =>
     let (d, out) := mvccStep b.base toks
